@@ -23,6 +23,7 @@ type MyStep struct {
 	Tag        string
 	ParamDesc  []string
 	Reexec     bool // explicit prepared SELECT executed twice
+	Other      string // prepared-interleaved: the statement prepared and executed in between
 }
 
 // ReturnsRows reports whether the statement produces a result set.
@@ -116,6 +117,8 @@ type MySessGen struct {
 	TextOnly bool
 	// Quote makes identifiers backtick-quoted now and then.
 	Quote bool
+	// Interleave makes some explicitly prepared SELECTs be executed after another statement was prepared and executed.
+	Interleave bool
 }
 
 // NewMySessGen creates a generator.
@@ -164,6 +167,16 @@ func (g *MySessGen) finish(st *MyStep, sql string, params []myBound) {
 	default:
 		st.Proto = "prepared-explicit"
 		st.Reexec = st.Kind == "select" && g.R.Intn(3) == 0
+		if g.Interleave && st.Kind == "select" && g.R.Intn(2) == 0 {
+			// another statement is prepared and executed between this statement's prepare and its execute
+			st.Proto = "prepared-interleaved"
+			st.Reexec = false
+			st.Other = "select id from " + st.Table + " order by id"
+			if st.Tag != "" {
+				st.Tag += ","
+			}
+			st.Tag += "interleaved-prepare"
+		}
 	}
 }
 
@@ -394,6 +407,19 @@ func RunMyStep(c *MyClient, st MyStep) []*MyResult {
 		return e(st.SQL, st.Args...)
 	}
 	switch st.Proto {
+	case "prepared-interleaved":
+		ps, res := c.Prepare(st.SQL)
+		if ps == nil {
+			return []*MyResult{res}
+		}
+		defer ps.Close()
+		ps2, res2 := c.Prepare(st.Other)
+		if ps2 == nil {
+			return []*MyResult{res2}
+		}
+		defer ps2.Close()
+		r2 := ps2.Query()
+		return []*MyResult{r2, ps.Query(st.Args...)}
 	case "prepared-explicit":
 		ps, res := c.Prepare(st.SQL)
 		if ps == nil {
